@@ -19,7 +19,7 @@ from . import c01
 
 ID = "C18"
 LEVEL = "fault_enumeration"
-TECHNIQUE = "deterministic simulation with connection-level fault injection: every fault kind {EOF, reset, EOF inside a message, junk then EOF, handler exception, silent peer death (write error), TTY stdin EOF} injected at every step index of seeded multi-connection session scripts on real TCP/TTY handlers; router membership, BLOB routing, delivery to survivors and to a reconnecting peer checked"
+TECHNIQUE = "deterministic simulation with connection-level fault injection: every fault kind {EOF, reset, EOF inside a message, junk then EOF, handler exception, silent peer death (write error), TTY stdin EOF, handler exception on the TTY channel} injected at every step index of seeded multi-connection session scripts on real TCP/TTY handlers; router membership, BLOB routing, delivery to survivors and to a reconnecting peer checked"
 RULE = ("scenario = session script of 2-3 concurrent connections (raw peers, a library client, optionally the TTY channel): handshakes, "
         "enableBLOB, writes, device text/BLOB updates x ONE fault (kind x step index, enumerated round-robin over the run index; two faults "
         "and more connections in the thorough tier) x network knobs; afterwards further device traffic, then a reconnect; distinct = "
@@ -31,12 +31,12 @@ ASSUMPTIONS = [
     "a peer that vanishes without FIN is only noticed when the server next writes to it (as with real TCP); cleanliness is demanded at quiescence after the next device message",
     "delivery 'attempted' means the router handing a message to the connection's handler after it was unregistered",
 ]
-QUICK_RUNS = 2100
+QUICK_RUNS = 2400
 QUICK_BUDGET_S = 150
 THOROUGH_BUDGET_S = 360
 CHUNK = 50
 STEP_KEYS = ("steps",)
-FAULTS = ["eof", "reset", "eof_mid_message", "junk_then_eof", "handler_exception", "write_error", "tty_eof"]
+FAULTS = ["eof", "reset", "eof_mid_message", "junk_then_eof", "handler_exception", "write_error", "tty_eof", "tty_handler_exception"]
 
 
 def _device():
@@ -66,7 +66,7 @@ def generate(seed, tier, index):
     thorough = tier == "thorough"
     fault = FAULTS[index % len(FAULTS)]
     nby = rng.randint(1, 2 if not thorough else 3)
-    tty = rng.random() < 0.4 or fault == "tty_eof"
+    tty = rng.random() < 0.4 or fault.startswith("tty_")
     libclient = rng.random() < 0.5
     n = rng.randint(6, 14)
     script = []
@@ -198,11 +198,15 @@ def execute(scen):
 
         def do_fault(kind, cut, who):
             nonlocal fired_registered
-            if kind == "tty_eof":
+            if kind.startswith("tty_"):
                 if not scen["tty"] or tty_dead_at[0] is not None:
                     return
                 fired_registered = tty_handler in router.clients
-                stack.stdin_file.feed_eof()
+                if kind == "tty_eof":
+                    stack.stdin_file.feed_eof()
+                else:
+                    # an error while a message from the TTY peer is handled ends that channel (it *is* the connection)
+                    stack.stdin_file.feed('<newTextVector device="D" name="TXT"><oneText name="T0">BOOM</oneText></newTextVector>\n')
                 tty_dead_at[0] = len(sent_text)
                 faults[kind] = faults.get(kind, 0) + 1
                 return
@@ -388,7 +392,7 @@ def simplify(scen):
             c = copy.deepcopy(scen)
             c["net"][k] = v
             yield c
-    if scen["tty"] and not any(s.get("kind") == "tty_eof" for s in scen["steps"]):
+    if scen["tty"] and not any(str(s.get("kind")).startswith("tty_") for s in scen["steps"]):
         c = copy.deepcopy(scen)
         c["tty"] = False
         yield c
